@@ -1,12 +1,19 @@
 //! Verification stand-in for `hashbrown` 0.12.3 `raw::RawTable` (the only item /repo uses,
-//! in relay-crates/intern/src/sharded_set.rs): an association list of (hash, value).
-//! Contract modelled: `get(hash, eq)` returns an element previously inserted with the same
-//! hash for which `eq` holds, if any; `insert` stores unconditionally.
+//! in relay-crates/intern/src/sharded_set.rs): a fixed-capacity association list of
+//! (hash, value). Contract modelled: `get(hash, eq)` returns an element previously inserted
+//! with the same hash for which `eq` holds, if any; `insert` stores unconditionally.
+//! Loops run over the constant CAP with a local counter (CBMC unwinds them exactly; a loop
+//! bounded by a heap-stored length is unwound to the global bound at every call).
 #![allow(clippy::all)]
 
 pub mod raw {
+    /// Capacity per table (= per shard of intern's ShardedSet). Exceeding it panics, which a
+    /// harness reports as an infrastructure error, never as a verdict.
+    pub const CAP: usize = 6;
+
     pub struct RawTable<T> {
-        items: Vec<(u64, T)>,
+        len: usize,
+        items: [Option<(u64, T)>; CAP],
     }
     pub struct Bucket<T> {
         ptr: *mut T,
@@ -26,20 +33,21 @@ pub mod raw {
     }
     impl<T> RawTable<T> {
         pub const fn new() -> Self {
-            RawTable { items: Vec::new() }
+            RawTable { len: 0, items: [const { None }; CAP] }
         }
         pub fn len(&self) -> usize {
-            self.items.len()
+            self.len
         }
         pub fn is_empty(&self) -> bool {
-            self.items.is_empty()
+            self.len == 0
         }
         pub fn get(&self, hash: u64, mut eq: impl FnMut(&T) -> bool) -> Option<&T> {
             let mut i = 0;
-            while i < self.items.len() {
-                let (h, v) = &self.items[i];
-                if *h == hash && eq(v) {
-                    return Some(v);
+            while i < CAP {
+                if let Some((h, v)) = &self.items[i] {
+                    if *h == hash && eq(v) {
+                        return Some(v);
+                    }
                 }
                 i += 1;
             }
@@ -47,18 +55,26 @@ pub mod raw {
         }
         pub fn get_mut(&mut self, hash: u64, mut eq: impl FnMut(&T) -> bool) -> Option<&mut T> {
             let mut i = 0;
-            while i < self.items.len() {
-                if self.items[i].0 == hash && eq(&self.items[i].1) {
-                    return Some(&mut self.items[i].1);
+            while i < CAP {
+                let hit = match &self.items[i] {
+                    Some((h, v)) => *h == hash && eq(v),
+                    None => false,
+                };
+                if hit {
+                    return self.items[i].as_mut().map(|p| &mut p.1);
                 }
                 i += 1;
             }
             None
         }
         pub fn insert(&mut self, hash: u64, value: T, _hasher: impl Fn(&T) -> u64) -> Bucket<T> {
-            self.items.push((hash, value));
-            let last = self.items.len() - 1;
-            Bucket { ptr: &mut self.items[last].1 as *mut T }
+            let n = self.len;
+            if n >= CAP {
+                panic!("verification stand-in hashbrown::RawTable capacity exceeded");
+            }
+            unsafe { std::ptr::write(&mut self.items[n], Some((hash, value))) };
+            self.len = n + 1;
+            Bucket { ptr: &mut self.items[n].as_mut().unwrap().1 as *mut T }
         }
     }
 }
